@@ -22,6 +22,7 @@ LPF == INSTANCE LPFile
 MPSF == INSTANCE MPSFile
 RES == INSTANCE Residue
 LPW == INSTANCE LPWrite
+MPSW == INSTANCE MPSWrite
 
 Tr == ndJsonDeserialize(IOEnv.TRACE)
 VerdictFile == IOEnv.VERDICT
@@ -604,6 +605,15 @@ Next ==
              IN /\ viol' = viol \cup (IF nd # {} THEN {V(ev, {"SPEC-DRIFT"}, "LP text differs from LPWrite!Write at token " \o ToString(k0) \o ": wrote "
                                         \o (IF k0 <= Len(ev.tokens) THEN ev.tokens[k0] ELSE "<end>") \o " expected " \o (IF k0 <= Len(want) THEN want[k0] ELSE "<end>"))} ELSE {})
                 /\ UNCHANGED <<st, slot, ans, glob>>
+          ELSE IF ev.call = "mps_text" THEN
+             \* the content of the MPS file the library wrote for the problem of handle h against MPSWrite!Write (specification drift if different)
+             LET s0 == st[ev.h]
+                 known == s0.live /\ s0.sync /\ UNKNOWN \notin SetOfSeq(s0.lp.cname) /\ UNKNOWN \notin SetOfSeq(s0.lp.rname) /\ MPSW!Writable(s0.lp)
+                 want == MPSW!Strs(MPSW!Write(s0.lp, ev.tree.objname))
+                 diff == IF ~known THEN {} ELSE {f \in {"objsense", "rows", "cols", "rhs", "ranges", "bounds"} : ev.tree[f] # want[f]}
+             IN /\ viol' = viol \cup (IF diff # {} THEN {V(ev, {"SPEC-DRIFT"}, "MPS text differs from MPSWrite!Write in " \o ToString(diff)
+                                        \o (IF "cols" \in diff THEN "" ELSE ": wrote " \o ToString([f \in diff |-> ev.tree[f]]) \o " expected " \o ToString([f \in diff |-> want[f]])))} ELSE {})
+                /\ UNCHANGED <<st, slot, ans, glob>>
           ELSE IF ev.call = "basis_rt" THEN
              LET s0 == st[ev.h]
                  d == IF s0.live /\ s0.sync /\ ~IsNone(slot[ev.b]) /\ S!BasisShapeOK(s0.lp, slot[ev.b].cstat, slot[ev.b].rstat)
@@ -776,7 +786,7 @@ Next ==
                              !.basverdicts = @ + (IF ev.call \in {"basis_optimalstatus", "basis_dualstatus", "verify"} THEN 1 ELSE 0),
                              !.basisrt = @ + (IF ev.call \in {"basis_rt", "basis_file", "rt_check", "expect_lp"} THEN 1 ELSE 0),
                              !.agree = @ + (IF ev.call = "eq_answer" THEN 1 ELSE 0),
-                             !.lptext = @ + (IF ev.call = "lp_text" THEN 1 ELSE 0),
+                             !.lptext = @ + (IF ev.call \in {"lp_text", "mps_text"} THEN 1 ELSE 0),
                              !.solobs = @ + (IF ev.call = "sol" THEN 1 ELSE 0),
                              !.edits = @ + (IF "rval" \in DOMAIN ev /\ ev.rval = 0 /\ ev.call \in {"new_col", "add_col", "add_cols", "new_row", "add_row", "add_rows", "add_ranged_row", "add_ranged_rows",
                                                  "delete_row", "delete_rows", "delete_setrows", "delete_named_row", "delete_named_rows", "delete_col", "delete_cols", "delete_setcols",
